@@ -64,3 +64,47 @@ Example C14_example :
 Proof. vm_compute. split; reflexivity. Qed.
 Goal True. idtac "ASSUMPTIONS-OF C14_example". Abort.
 Print Assumptions C14_example.
+
+(* READER LEVEL.  A preprocessor directive written over k+1 physical lines, each but the last ending in
+   a backslash, is delivered as ONE directive item whose text is the pieces joined without the
+   backslashes and whose span is exactly those lines; the reader is left on the line after the
+   directive, so the Fortran around it is read as if the directive were not there.  Any k, any
+   following source, free or fixed form, any comment and OpenMP setting. *)
+From Coq Require Import Ascii String.
+From FV Require Reader CppLaws.
+Close Scope string_scope.
+Theorem C14_reader_directive_with_continuations_is_one_item :
+  forall free omp ign er p0 ps lastl src lc fifo,
+    CppLaws.plain_pull free omp ign (p0 ++ ["\"%char]) ->
+    Text.starts_with ["#"%char] (Text.lstrip (p0 ++ ["\"%char])) = true ->
+    Forall (fun p => CppLaws.plain_pull free omp ign (p ++ ["\"%char])) ps -> CppLaws.plain_pull free omp ign lastl ->
+    Text.ends_with_char "\"%char lastl = false -> Text.strip (p0 ++ List.concat ps ++ lastl) <> [] ->
+    Reader.get_source_item (Reader.mkRst ((p0 ++ ["\"%char]) :: CppLaws.cont_lines ps ++ lastl :: src) [] lc fifo free omp ign er)
+    = (Some (Reader.RCpp (Text.strip (p0 ++ List.concat ps ++ lastl)) (S lc) (S (S lc) + List.length ps)),
+       Reader.mkRst src [] (S (S lc) + List.length ps) fifo free omp ign er).
+Proof. exact CppLaws.cpp_item. Qed.
+Goal True. idtac "ASSUMPTIONS-OF C14_reader_directive_with_continuations_is_one_item". Abort.
+Print Assumptions C14_reader_directive_with_continuations_is_one_item.
+
+Theorem C14_reader_directive_on_one_line :
+  forall free omp ign er l src lc fifo,
+    CppLaws.plain_pull free omp ign l -> l <> [] -> Text.starts_with ["#"%char] (Text.lstrip l) = true ->
+    Text.ends_with_char "\"%char l = false -> Text.strip l <> [] ->
+    Reader.get_source_item (Reader.mkRst (l :: src) [] lc fifo free omp ign er)
+    = (Some (Reader.RCpp (Text.strip l) (S lc) (S lc)), Reader.mkRst src [] (S lc) fifo free omp ign er).
+Proof. exact CppLaws.cpp_item_one. Qed.
+Goal True. idtac "ASSUMPTIONS-OF C14_reader_directive_on_one_line". Abort.
+Print Assumptions C14_reader_directive_on_one_line.
+
+Example C14_example_reader_directive :
+  let t := String.list_ascii_of_string in
+  Reader.read_source [t "x = 1"%string; t "#define F(a) \"%string; t "   ((a) + \"%string; t "    1)"%string; t "y = 2"%string] true false true
+  = [Reader.RLine (t "x = 1"%string) None None 1 1; Reader.RCpp (t "#define F(a)    ((a) +     1)"%string) 2 4;
+     Reader.RLine (t "y = 2"%string) None None 5 5]
+  /\ CppLaws.plain_pull true false true (t "#define F(a) \"%string) /\ CppLaws.plain_pull false true true (t "   ((a) + \"%string).
+Proof. cbv zeta. split; [vm_compute; reflexivity|]. split; split; try (vm_compute; reflexivity).
+  - left; reflexivity.
+  - right. split; [right|]; vm_compute; reflexivity.
+Qed.
+Goal True. idtac "ASSUMPTIONS-OF C14_example_reader_directive". Abort.
+Print Assumptions C14_example_reader_directive.
